@@ -197,6 +197,7 @@ func vNewOrderState(sc vOrderScenario) *vOrderState {
 		lc:      lifecycle.New(),
 		pass:    &vPass{g: g},
 	}
+	vs.InitNilMaps(o)
 	s.o = o
 	// cleanup-side calls return at once: they are made synchronously by the
 	// order's goroutine after it left its loop
